@@ -11,6 +11,7 @@ import (
 	"os"
 	"sort"
 	"strings"
+	"time"
 
 	"github.com/LemoFoundationLtd/lemochain-core/chain/account"
 	"github.com/LemoFoundationLtd/lemochain-core/chain/params"
@@ -488,6 +489,66 @@ func voteFlow(c *run.Ctx, idx int) {
 	}
 }
 
+// slowContracts: the miner has only a few milliseconds left for packaging while a contract call runs for much longer.
+// Whatever the miner packages under that pressure (which transactions is its policy), it executed completely: every
+// validator, which has all the time it needs, accepts the block.
+func slowContracts(c *run.Ctx, idx int) {
+	r := run.NewRng(c.Seed, 12, uint64(idx))
+	cl := scn.NewCluster(r, fx.WorldCfg{Deputies: 1 + idx%3, Users: 6, SlotMs: 3000}, 3, scn.DefaultCfg())
+	defer cl.Close()
+	g := cl.G
+	t := cl.NextTime()
+	c.WAL(map[string]interface{}{"slow": idx, "seed": c.Seed})
+	blk := checkStep(c, cl, t, g.Setup(t), false)
+	if blk == nil {
+		return
+	}
+	cl.Adopt(blk)
+	cl.StabiliseAll()
+	loop := g.ByKind("loop")
+	store := g.ByKind("storefix")
+	U := cl.W.Users
+	for bi := 0; bi < 3; bi++ {
+		t = cl.NextTime()
+		exp := uint64(t) + 600
+		var cands []scn.Cand
+		switch bi {
+		case 0:
+			cands = []scn.Cand{g.C(g.B.Call(U[1], loop, big.NewInt(0), uint64(r.Range(20, 60))*1000000, nil, exp), "call-loop-long", "any"), g.C(g.B.Transfer(U[2], U[3].Addr, fx.LEMO(1), exp+1), "transfer", "any")}
+		case 1:
+			cands = []scn.Cand{g.C(g.B.Call(U[2], store, big.NewInt(0), 200000, nil, exp), "call-store", "any"), g.C(g.B.Call(U[3], loop, fx.LEMO(1), uint64(r.Range(20, 60))*1000000, nil, exp+1), "call-loop-long-with-value", "any")}
+		default:
+			cands = []scn.Cand{g.C(g.B.Box(U[4], types.Transactions{g.B.Call(U[1], store, big.NewInt(0), 200000, nil, exp+5), g.B.Call(U[2], loop, big.NewInt(0), uint64(r.Range(20, 40))*1000000, nil, exp+6)}, exp), "box-with-long-loop", "any")}
+		}
+		A := cl.Nodes[0]
+		A.MineTimeoutMs = int64(r.Range(3, 25))
+		t0 := time.Now()
+		res, err := A.Mine(cl.Head, t, scn.Txs(cands), "")
+		A.MineTimeoutMs = 0
+		if err != nil {
+			c.Note("slow-contract scenario: mining failed: " + err.Error())
+			return
+		}
+		c.Stat("blocks_mined_under_time_pressure", 1)
+		c.Stat("txs_packaged_under_time_pressure", int64(len(res.Block.Txs)))
+		if time.Since(t0) > 40*time.Millisecond {
+			c.Stat("packaging_outlasted_the_miner_window", 1)
+		}
+		if _, err := fx.WireE(res.Block, true); err != nil {
+			return
+		}
+		for i, e := range cl.InsertAll(res.Block) {
+			if e != nil {
+				c.Violation("C01/honest-block-rejected:"+e.Error(), fmt.Sprintf("node %d rejects a block the honest miner path produced with %d ms left for packaging (height %d, %d of %d candidates packaged): %v", i, A.MineTimeoutMs, res.Block.Height(), len(res.Block.Txs), len(cands), e), cl.Witness(t, cands, "mined under time pressure"))
+				return
+			}
+		}
+		c.Case(fmt.Sprintf("slow d%d b%d packaged%d", 1+idx%3, bi, len(res.Block.Txs)), len(res.Block.Txs) > 0, map[string]interface{}{"slow": idx, "block": bi, "packaged": len(res.Block.Txs)})
+		cl.Adopt(res.Block)
+		cl.StabiliseAll()
+	}
+}
+
 func runAll(c *run.Ctx) {
 	fx.Quiet()
 	scn.SetParams()
@@ -503,6 +564,9 @@ func runAll(c *run.Ctx) {
 		scenario(c, i)
 		if i%4 == 1 {
 			voteFlow(c, i)
+		}
+		if i%8 == 3 {
+			slowContracts(c, i)
 		}
 	}
 }
